@@ -833,6 +833,12 @@ func writeEvidence(g *G, prop string, results []*FuncResult, obls []*Obl, nObl, 
 		"violating_obligations":    vs,
 		"undecided":                undecided,
 		"contract_scan":            g.specs.Scan,
+		"trusted_contract_validation": func() string {
+			if v := os.Getenv("GOVC_TRUSTED_DIFFTEST"); v != "" {
+				return "bounded differential tests of the trusted library contracts (/verif/trusted/difftest, thorough tier): " + v
+			}
+			return "not run in this tier (thorough tier only)"
+		}(),
 		"explanation": fmt.Sprintf("%d proof obligations generated from the go/ssa form of /repo's working tree for the functions under contract for %s; %d discharged (unsat) by the SMT portfolio; %d match a listed known finding; %d violate.",
 			nObl, prop, nDis, len(knownHits), len(violations)),
 	}
